@@ -1023,6 +1023,14 @@ def check_name_encoder(ctx, interp: Interp) -> None:
         cons = ctx.construct("twisted.web.http_headers." + a.func, a.node)
         ok = gm is not None and all(guarded_by_token(gm, n) for n in gm.ids_of(a.node))
         wit = ""
+        if not ok:
+            # the same statement on the inlined view of encode(): a validate-or-raise helper called before the store dominates it there
+            import re as _re2
+            want = _re2.sub(r"__i\d+", "", src(a.node))
+            twins = [n for n in g.ids(lambda x: x.kind == "stmt") if _re2.sub(r"__i\d+", "", src(g.node(n).ast)) == want or
+                     (isinstance(a.node, ast.Call) and any(_re2.sub(r"__i\d+", "", src(c)) == want for c in walk_local(g.node(n).ast) if isinstance(c, ast.Call)))]
+            if twins and all(guarded_by_token(g, n) for n in twins):
+                ok = True
         if not ok and gm is not None and mn != "encode":
             sites = call_sites(mn)
             ok = bool(sites) and all(guarded_by_token(gs, n) for _, gs, n in sites)
